@@ -1,39 +1,100 @@
-import Ypv.Lemmas.Eval
+import Ypv.Lemmas.EvalKw
+import Ypv.Props.C12
 /-!
 # C15 — evaluation fails only with YAML Path errors
 
 Every partial Python operation the handlers use is a model function with a `crash` outcome
-(`pyGetItem`: `IndexError`; `pyIn`: `TypeError` on `None`; `pyKeyBetween`: `TypeError` on `str <= int`);
-the matcher may answer with any error.  The theorems say that behind the guards of the (fixed) code no
-crash outcome is reachable, for every document, every segment list, every integer index and slice
-bound.  The `example`s show the same operations crash without the guards — which is what the pinned
-code did (fixes/C15-1.patch).
+(`pyGetItem`: `IndexError`; `pyIn`: `TypeError` on `None`; `pyKeyBetween`: `TypeError` on `str <= int`;
+`groupKey`: `TypeError` for an unhashable `dict` key in `unique`/`distinct`).  The theorems say that
+behind the guards of the (fixed) code no crash outcome is reachable, for every document, every
+segment list — KEYWORD_SEARCH segments included —, every integer index and slice bound, with **one
+exception, the registered known finding C15-K1**: `[unique(…)]` / `[distinct(…)]` over a collection
+with an unhashable (hash or list) member value raise `TypeError`.
+
+* The matcher is no longer a hypothesis: `compare_matcher_safe` proves `MtSafe` for the matcher
+  built from the comparison model (`W1.mtCompare rx orc`, from `C12.matches_never_crashes`), for every
+  regex oracle; container haystacks are answered by the explicit oracle `orc` (`W1.noOracle`: out of
+  model), so `queries_errors_are_ypath_compare` has no hypothesis about `search_matches` at all.
+* `keyword_crash_only_K1`: at every node, for every keyword segment, a crash outcome is `TypeError`
+  and the (segment, node) pair lies in the decidable class `W1.K1Class` (= C15-K1).
+* `required_errors_are_ypath_partial`: no crash outcome of `_get_required_nodes` for a path without
+  `unique`/`distinct` segments.  FULL STATEMENT (false for the pinned code, C15-K1): no crash outcome for
+  every path.  The hypothesis excludes the finding's class *coarsened to the path*: the model does
+  not track which nodes a path reaches, so "no reached node is in `K1Class s`" is stated as "no
+  segment `s` can be in the class at all" (`ESeg.grouping s = false`); the exact, node-level class is
+  the one of `keyword_crash_only_K1`.
+The `example`s show the unguarded operations crash — which is what the pinned code did
+(fixes/C15-1.patch) — and the kernel-checked witness of C15-K1.
 -/
 namespace Ypv.C15
 open Ypv Ypv.Eval Gen
 
-variable {mt : Matcher} {dsc : Desc}
+variable {mt : Matcher} {dsc : Desc} {rt : Node}
 
-/-- **No crash outcome is reachable.**  If the matcher raises only YAML Path errors (or
-out-of-model), and so does the evaluation of attribute paths, then whatever `_get_required_nodes`
-raises — on any start node, for any segment list — is not a crash. -/
-theorem required_errors_are_ypath (hmt : MtSafe mt) (hd : DscSafe dsc) (segs : List ESeg) (r : Res) (e : Err)
-    (h : (required mt dsc segs r).2 = some e) : e.isCrash = false :=
-  noCrash_required hmt hd segs r e h
+/-- **The matcher of the comparison model raises only YAML Path errors** (or out-of-model), for
+every regex oracle `rx`, provided the oracle `orc` for container haystacks does: a scalar haystack
+is compared by `searchMatches`, which never ends in a crash outcome (`C12.matches_never_crashes`). -/
+theorem compare_matcher_safe (rx : Str → Str → Option Bool) {orc : Matcher} (horc : MtSafe orc) :
+    MtSafe (W1.mtCompare rx orc) := by
+  intro m n t e h
+  unfold W1.mtCompare at h
+  split at h
+  · rename_i a v
+    split at h
+    · exact horc _ _ _ _ h
+    · cases e with
+      | crash k => exact absurd h (C12.matches_never_crashes rx m v t k)
+      | _ => rfl
+  · exact horc _ _ _ _ h
+
+/-- Without an oracle (container haystacks out of model) nothing is assumed at all. -/
+theorem compare_matcher_safe_noOracle (rx : Str → Str → Option Bool) : MtSafe (W1.mtCompare rx W1.noOracle) :=
+  compare_matcher_safe rx W1.mtSafe_noOracle
+
+/-- **Where a keyword segment can crash** (any node `n`, any coordinates, any document root): a
+crash outcome of `KeywordSearches.search_matches` is a `TypeError`, and the segment is
+`unique`/`distinct` applied to a collection with an unhashable member value — the decidable class
+`W1.K1Class` of the known finding C15-K1.  Outside that class no crash outcome is reachable. -/
+theorem keyword_crash_only_K1 (rt : Node) (inv : Bool) (k : Keyword) (p : Str) (n : Node) (c : Ctx) (e : Err)
+    (h : (kwStep rt inv k p n c).2 = some e) (hc : e.isCrash = true) :
+    e = .crash .typeError ∧ W1.K1Class (.keyword inv k p) n = true :=
+  W1.crash_kwStep rt inv k p n c e h hc
+
+theorem keyword_no_crash_outside_K1 (rt : Node) (inv : Bool) (k : Keyword) (p : Str) (n : Node) (c : Ctx)
+    (hK : W1.K1Class (.keyword inv k p) n = false) : (kwStep rt inv k p n c).NoCrash := by
+  intro e he
+  cases hc : e.isCrash with
+  | false => rfl
+  | true => rw [(keyword_crash_only_K1 rt inv k p n c e he hc).2] at hK; cases hK
+
+/-- **No crash outcome is reachable** (PARTIAL: the class of C15-K1 is excluded — see the header).
+If the matcher raises only YAML Path errors (or out-of-model), and so does the evaluation of
+attribute paths, and the path holds no `unique`/`distinct` segment, then whatever
+`_get_required_nodes` raises — on any start node, for any such segment list, keyword segments
+included — is not a crash. -/
+theorem required_errors_are_ypath_partial (hmt : MtSafe mt) (hd : DscSafe dsc) (segs : List ESeg)
+    (hK1 : ∀ s ∈ segs, s.grouping = false) (r : Res) (e : Err)
+    (h : (required mt dsc rt segs r).2 = some e) : e.isCrash = false :=
+  noCrash_required hmt hd segs (fun s hs => W1.kwOk_of_not_grouping rt s (hK1 s hs)) r e h
 
 /-- The same for the queries as the user asks them: `get_nodes(mustexist=True)`, `exists`,
-`get_nodes(mustexist=False)` (read behaviour), with attribute paths evaluated by the model itself. -/
-theorem queries_errors_are_ypath (hmt : MtSafe mt) (pa : Str → Except Err (List ESeg))
-    (hpa : ∀ a e, pa a = .error e → e.isCrash = false) (segs : List ESeg) (d : Node) :
-    (getRequired mt (Desc.ofParser mt pa) segs d).NoCrash
-    ∧ (∀ e, existsQ mt (Desc.ofParser mt pa) segs d = .error e → e.isCrash = false)
-    ∧ (getOptional mt (Desc.ofParser mt pa) segs d).NoCrash := by
-  have hd := dscSafe_ofParser hmt pa hpa
+`get_nodes(mustexist=False)` (read behaviour), with attribute paths evaluated by the model itself
+(no `unique`/`distinct` segment in the path or in an attribute path). -/
+theorem queries_errors_are_ypath_partial (hmt : MtSafe mt) (pa : Str → Except Err (List ESeg))
+    (hpa : ∀ a e, pa a = .error e → e.isCrash = false)
+    (hpk : ∀ a sg, pa a = .ok sg → ∀ s ∈ sg, s.grouping = false)
+    (segs : List ESeg) (hK1 : ∀ s ∈ segs, s.grouping = false) (d : Node) :
+    (getRequired mt (Desc.ofParser mt d pa) segs d).NoCrash
+    ∧ (∀ e, existsQ mt (Desc.ofParser mt d pa) segs d = .error e → e.isCrash = false)
+    ∧ (getOptional mt (Desc.ofParser mt d pa) segs d).NoCrash := by
+  have hd : DscSafe (Desc.ofParser mt d pa) :=
+    dscSafe_ofParser hmt pa hpa (fun a sg h s hs => W1.kwOk_of_not_grouping d s (hpk a sg h s hs))
+  have hk : ∀ s ∈ segs, KwOk d s := fun s hs => W1.kwOk_of_not_grouping d s (hK1 s hs)
   refine ⟨?_, ?_, ?_⟩
   · unfold getRequired
     split
     · exact noCrash_nil
-    · refine noCrash_append (noCrash_required hmt hd _ _) ?_
+    · refine noCrash_append (noCrash_required hmt hd _ hk _) ?_
       split
       · exact noCrash_fail rfl
       · exact noCrash_nil
@@ -41,7 +102,7 @@ theorem queries_errors_are_ypath (hmt : MtSafe mt) (pa : Str → Except Err (Lis
     unfold existsQ at he
     split at he
     · cases he
-    · have := noCrash_required hmt hd segs (.real (d, Ctx.root))
+    · have := noCrash_required hmt hd segs hk (.real (d, Ctx.root))
       unfold collapse at he
       split at he
       · cases he
@@ -56,7 +117,21 @@ theorem queries_errors_are_ypath (hmt : MtSafe mt) (pa : Str → Except Err (Lis
   · unfold getOptional
     split
     · exact noCrash_nil
-    · exact noCrash_optional hmt hd _ _
+    · exact noCrash_optional hmt hd _ hk _
+
+/-- **With the comparison model as the matcher nothing is assumed about `search_matches`**: for
+every regex oracle, every reading of attribute texts that fails only with YAML Path errors, every
+document and every path without `unique`/`distinct` segments, the three queries end without a crash
+outcome (container haystacks: out of model). -/
+theorem queries_errors_are_ypath_compare (rx : Str → Str → Option Bool) (pa : Str → Except Err (List ESeg))
+    (hpa : ∀ a e, pa a = .error e → e.isCrash = false)
+    (hpk : ∀ a sg, pa a = .ok sg → ∀ s ∈ sg, s.grouping = false)
+    (segs : List ESeg) (hK1 : ∀ s ∈ segs, s.grouping = false) (d : Node) :
+    (getRequired (W1.mtCompare rx W1.noOracle) (Desc.ofParser (W1.mtCompare rx W1.noOracle) d pa) segs d).NoCrash
+    ∧ (∀ e, existsQ (W1.mtCompare rx W1.noOracle) (Desc.ofParser (W1.mtCompare rx W1.noOracle) d pa) segs d = .error e
+        → e.isCrash = false)
+    ∧ (getOptional (W1.mtCompare rx W1.noOracle) (Desc.ofParser (W1.mtCompare rx W1.noOracle) d pa) segs d).NoCrash :=
+  queries_errors_are_ypath_partial (compare_matcher_safe_noOracle rx) pa hpa hpk segs hK1 d
 
 /-- The hypotheses are met by a concrete matcher (string equality on scalars, YAML Path error on
 containers), and the theorem then covers a query that raises. -/
@@ -72,7 +147,7 @@ example : MtSafe sampleMt := by
   split at h <;> cases h
   rfl
 
-example : (required sampleMt Desc.none [.index 0] (.real (.set none [.str ['a']], Ctx.root))).2
+example : (required sampleMt Desc.none (.scalar none .null) [.index 0] (.real (.set none [.str ['a']], Ctx.root))).2
     = some (.ypath .generic) := by decide +kernel
 
 /-! What the unguarded operations of the pinned code do (each was reproduced on the real code):
@@ -83,10 +158,31 @@ example : pyGetItem [Node.scalar none (.int 1), Node.scalar none (.int 2)] 8 = .
 example : pyIn ['a'] (.scalar none .null) = .error (.crash .typeError) := by decide +kernel
 example : pyKeyBetween ['a'] ['b'] (.int 2) = .error (.crash .typeError) := by decide +kernel
 /-- … and the guarded handlers on the same inputs. -/
-example : (required sampleMt Desc.none [.index (-2)] (.real (.seq none [.scalar none (.int 1)], Ctx.root))) = Gen.nil := by
+example : (required sampleMt Desc.none (.scalar none .null) [.index (-2)] (.real (.seq none [.scalar none (.int 1)], Ctx.root))) = Gen.nil := by
   decide +kernel
-example : (required sampleMt Desc.none [.slice ['1'] ['9']]
+example : (required sampleMt Desc.none (.scalar none .null) [.slice ['1'] ['9']]
     (.real (.seq none [.scalar none (.int 1), .scalar none (.int 2)], Ctx.root))).1.length = 1 := by
   decide +kernel
+
+/-! ## C15-K1 (known finding): `[unique()]` over `[a, {b: 1}, a]` raises `TypeError`; the pair is in
+`K1Class`; `[max()]`-style segments and hashable members are outside it. -/
+def k1Doc : Node := .seq none [.scalar none (.str ['a']), .map none [(.str ['b'], .scalar none (.int 1))], .scalar none (.str ['a'])]
+
+example : (required sampleMt Desc.none k1Doc [.keyword false .unique []] (.real (k1Doc, Ctx.root))).2
+    = some (.crash .typeError) := by decide +kernel
+example : (required sampleMt Desc.none k1Doc [.keyword false .distinct []] (.real (k1Doc, Ctx.root))).2
+    = some (.crash .typeError) := by decide +kernel
+example : W1.K1Class (.keyword false .unique []) k1Doc = true := by decide +kernel
+example : W1.K1Class (.keyword false .unique [])
+    (.seq none [.scalar none (.str ['a']), .scalar none (.int 1), .scalar none (.str ['a'])]) = false := by decide +kernel
+/-- … and a keyword query inside the theorem: `[!has_child(b)]` / `[parent()]` / `[max(b)]`. -/
+example : ∀ s ∈ [ESeg.index 1, .keyword false .hasChild ['b'], .keyword false .parent []], s.grouping = false := by
+  decide +kernel
+example : (required sampleMt Desc.none k1Doc [.index 1, .keyword false .hasChild ['b'], .keyword false .parent []]
+    (.real (k1Doc, Ctx.root))).1.map (fun r => match r with | .real x => x.2.addr | .virt _ => [])
+    = [[]] := by decide +kernel
+/-- The comparison-model matcher decides a search without any oracle. -/
+example : (required (W1.mtCompare C12.noRegex W1.noOracle) Desc.none k1Doc [.search false .equals ['.'] ['a']]
+    (.real (.seq none [.scalar none (.str ['a']), .scalar none (.int 1)], Ctx.root))).1.length = 1 := by decide +kernel
 
 end Ypv.C15
